@@ -4,8 +4,8 @@ package main
 // property-specific obligation generators (mode A).
 
 import (
-	"sort"
 	"go/token"
+	"sort"
 
 	"golang.org/x/tools/go/ssa"
 )
